@@ -730,22 +730,26 @@ def _preempt_case(item):
         # a first-time call (parsed, solved, traced, compiled, cached anew) is stopped before one source line anywhere in einx;
         # another first-time call of the same operation with another signature runs to its end in between; afterwards both calls
         # are repeated (now cache hits) - everything must be what the calls return alone
+        # the two calls differ in description and sizes, and their compiled code holds their sizes as literals: neither can stand in
+        # for the other
         n1, n2 = 2 + 2 * k, 3 + 2 * k
-        x, y = np.arange(n1 * 3, dtype=np.int64).reshape(n1, 3), np.arange(n2 * 5, dtype=np.int64).reshape(n2, 5) + 1
-        desc = "a b -> b"
-        ra, rb, n = single_preemption(lambda: call("sum", desc, y), lambda: call("sum", desc, x), None, ("",), pause_line=tuple(pause))
+        x, y = np.arange(n1 * 6, dtype=np.int64).reshape(n1, 6), np.arange(n2 * 6, dtype=np.int64).reshape(n2, 6) + 1
+        c1 = ("a (b c) -> c b", x, {"b": 2}, x.reshape(n1, 2, 3).sum(axis=0).T)
+        c2 = ("a (b c) -> a c", y, {"b": 3}, y.reshape(n2, 3, 2).sum(axis=1))
+        ra, rb, n = single_preemption(lambda: call("sum", c2[0], c2[1], **c2[2]), lambda: call("sum", c1[0], c1[1], **c1[2]), None, ("",),
+                                      pause_line=tuple(pause))
         later = []
-        for arr in (y, x, y):
+        for c in (c2, c1, c2):
             try:
-                later.append(call("sum", desc, arr))
+                later.append(call("sum", c[0], c[1], **c[2]))
             except BaseException as e:  # noqa: BLE001
                 later.append(("exc", common.classify_exc(e), common.exc_site(e), str(e)[:300]))
-        for who, r, arr in (("stopped thread", rb, x), ("other thread", ra, y), ("repeat afterwards", later[0], y), ("repeat afterwards", later[1], x),
-                            ("repeat afterwards", later[2], y)):
-            exp = arr.sum(axis=0)
+        for who, r, c in (("stopped thread", rb, c1), ("other thread", ra, c2), ("repeat afterwards", later[0], c2), ("repeat afterwards", later[1], c1),
+                          ("repeat afterwards", later[2], c2)):
+            exp = c[3]
             if r[0] != "ok" or r[1].shape != exp.shape or not np.array_equal(r[1], exp):
                 out.append(({"kind": "first_time_call_fails_next_to_another", "exc": r[1] if r[0] == "exc" else "wrong value", "who": who},
-                            {"stopped_before": list(pause), "call": f"einx.sum('{desc}', array of shape {arr.shape})", "detail": str(r)[:400]}))
+                            {"stopped_before": list(pause), "call": f"einx.sum('{c[0]}', array of shape {c[1].shape}, b={c[2]['b']})", "detail": str(r)[:400]}))
         return n, out
     # two first-time calls whose descriptions contain several anonymous axes, stopped inside the parser
     n1, n2 = 2 + k, 20000 + k                                  # fresh shapes (k is unique per schedule): both calls are traced anew
@@ -769,7 +773,7 @@ def _preempt_case(item):
 
 
 def distinct_lines_of_first_time_call(all_occurrences=False):
-    """every (file, line) of einx that a first-time einx.sum call executes, in order of first execution"""
+    """every (file, line) of einx that a first-time einx.sum call (with a flattened axis and a transposed output) executes, in order of first execution"""
     import einx
     src = common.REPO.rstrip("/") + "/einx/"
     seen, order = {}, []
@@ -784,10 +788,10 @@ def distinct_lines_of_first_time_call(all_occurrences=False):
 
     def glob(frame, event, arg):
         return local if event == "call" and frame.f_code.co_filename.startswith(src) else None
-    einx.sum("a b -> b", np.ones((3, 4)))                    # imports, first-use initialisation
+    einx.sum("a (b c) -> c b", np.ones((3, 6)), b=2)          # imports, first-use initialisation
     sys.settrace(glob)
     try:
-        einx.sum("a b -> b", np.arange(77 * 2).reshape(77, 2))
+        einx.sum("a (b c) -> c b", np.arange(77 * 6).reshape(77, 6), b=2)
     finally:
         sys.settrace(None)
     # before the first execution of every line, and before the last one of every line that runs several times (the outermost
